@@ -59,8 +59,8 @@ func ruleBuilders(r *Run, rule string, T types.Type) int {
 				return
 			}
 			fa, ok := st.Addr.(*ssa.FieldAddr)
-			if !ok || c.S(fa.X) != "P0" {
-				return
+			if !ok || (c.S(fa.X) != "P0" && !strings.HasPrefix(c.S(fa.X), "&P0.") && !strings.HasPrefix(c.S(fa.X), "P0.")) {
+				return // (fields promoted from an embedded struct are reached through it)
 			}
 			if p, ok := st.Val.(*ssa.Parameter); ok && paramIndex(p) >= 1 {
 				stores = append(stores, st)
@@ -84,7 +84,7 @@ func ruleBuilders(r *Run, rule string, T types.Type) int {
 				allInstrs(fn, func(in ssa.Instruction) {
 					switch x := in.(type) {
 					case *ssa.Store:
-						if fa, ok := x.Addr.(*ssa.FieldAddr); ok && c.S(fa.X) == "P0" {
+						if fa, ok := x.Addr.(*ssa.FieldAddr); ok && (c.S(fa.X) == "P0" || strings.HasPrefix(c.S(fa.X), "P0.") || strings.HasPrefix(c.S(fa.X), "&P0.")) {
 							handsOn = true
 						}
 					case *ssa.Call:
